@@ -143,6 +143,7 @@ structure TiProg where
   setContent : Fn
   update : Fn
   resegment : Fn
+  isAlnum : Fn
 
 abbrev tiKeys : List String := ["m.content", "m.cursor", "m.offset", "m.paste"]
 
@@ -189,5 +190,13 @@ def tiRunSetContent (P : TiProg) (cl : List A → List (List A)) (isAlnum : List
   match runFn (tiCx0 cl isAlnum) P.setContent (envOfTI m) [.str s] with
   | some (env', _) => tiOfEnv env'
   | none => none
+
+/-- `isAlphaNumeric` of a character through the translated body (`none`: the index expression `runes[0]` panics — an
+    empty grapheme, which `vaxis.Characters` never yields). `isLetter` / `isNumber` = `unicode.IsLetter` / `IsNumber`. -/
+def tiIsAlnumI (P : TiProg) (isLetter isNumber : A → Bool) (c : List A) : Option Bool :=
+  let cx : Ctx A := { cl := fun _ => [], isAlnum := fun _ => false, call := fun _ _ _ => none, isLetter := isLetter, isNumber := isNumber }
+  match runFn cx P.isAlnum [("p0.Grapheme", .str c)] [.opaque] with
+  | some (_, .bool b) => some b
+  | _ => none
 
 end VaxisModel.Model.EdRun
